@@ -189,6 +189,12 @@ def dispatch_rules(ctx, w, tb=None):
     """T3-T6: every control, ESC and CSI sequence yields exactly the implemented function with the right parameter
     slots (shared by the command-level properties: a command that is decoded wrongly cannot act rightly)."""
     tb = tb or tables.parser_tables(w)
+    ctx.rule("T2e", "ESC from every state enters Escape and clears intermediate and parameters (a two-character escape is never dispatched under a stale marker)")
+    for st in tb.states:
+        cell = tb.cell(st, 0x1B)
+        ctx.check(cell.next_state == "Escape" and "clear" in cell.actions and cell.result is None, "T2e", "ESC@" + st,
+                  "in state %s ESC does not abort into Escape with intermediate / parameters cleared (next=%s actions=%s)" % (st, cell.next_state, cell.actions), loc=cell.loc)
+    ctx.floor("T2e", 14, "states")
     # ---- T3 execute table, in every state that executes ---------------------------------
     ctx.rule("T3", "every C0/C1 control yields exactly the implemented function (or nothing), in every state that executes it")
     for st in tb.states:
